@@ -277,7 +277,19 @@ pub fn selftest_distance() -> Result<(), String> {
     Ok(())
 }
 
+/// What `serde_json::Value::from(deserr::Value)` is documented to hold: the same value, with a
+/// float JSON cannot express replaced by null.
+fn json_projection(d: &Doc) -> Doc {
+    match d {
+        Doc::Float(x) if !x.is_finite() => Doc::Null,
+        Doc::Seq(v) => Doc::Seq(v.iter().map(json_projection).collect()),
+        Doc::Map(m) => Doc::Map(m.iter().map(|(k, v)| (k.clone(), json_projection(v))).collect()),
+        other => other.clone(),
+    }
+}
+
 fn json_text_is(text: &str, want: &Doc) -> bool {
+    let want = &json_projection(want);
     match serde_json::from_str::<serde_json::Value>(text) {
         Ok(j) => {
             if Doc::from_json(&j).same_unordered(want) {
@@ -338,7 +350,7 @@ fn compare(
             }
             match party {
                 ErrParty::JsonError => {
-                    if matches!(actual, Doc::Null) {
+                    if matches!(json_projection(actual), Doc::Null) {
                         if found != "null" {
                             return Err(format!("the payload holds null there but the message says {found:?}"));
                         }
@@ -419,7 +431,7 @@ fn compare(
 }
 
 pub fn check(c: &mut Checker, base: &Run) {
-    if c.env.feats[c.scn.program].error_b || c.scn.has_exotic || c.scn.has_nonfinite || c.scn.has_dup {
+    if c.scn.has_exotic || c.scn.has_dup {
         return;
     }
     let (first, loc) = match first_report(&base.events) {
